@@ -215,7 +215,7 @@ def plan(tier):
 
 def work(shard, seed, tier):
     acc = Acc()
-    n = 30 if tier == "quick" else 320
+    n = 24 if tier == "quick" else 320
     campaign(acc, command_case(), execute, n, seed * 1000 + shard["i"],
              budget=Budget(240 if tier == "quick" else 1500), shrink_examples=60)
     return acc
